@@ -2,9 +2,21 @@ import PlumpyModel.PM.Model
 namespace DrvPM
 open PMF
 
-def showLabel : Label → String
-  | .created => "created" | .running => "running" | .waiting => "waiting"
-  | .finished => "finished" | .excepted => "excepted" | .killed => "killed"
+/-
+Line protocol of the process-control model (`pmodel pm`).
+
+  case <nfut>                                    start a new case with <nfut> pending external awaitables
+  fn <id> <awaits> <outcome>                     declare a step function of the program
+      outcome := cont <fn> <nargs> <int>* <nkw> <key>=<int>*
+               | wait <fn> | waiton <fn> <n> <fut>:<key>* | stop <int|-> <0|1> | kill | raise <n>
+  tick stepper | tick adone <f> | tick trykill   run one ready callback
+  pause | play | kill | resume <int|-> | fail | cancelfut | complete <f> ok <int> | complete <f> exc <n>
+  callsoon <ok|raise> | tick usercb <ok|raise>
+
+`case` and `fn` lines are echoed; every other line prints the observation after the op.
+-/
+
+def showLabel (l : Label) : String := l.name
 
 def showExc : Exc → String
   | .user n => s!"user{n}" | .invalidState => "InvalidStateError" | .noTransition _ _ => "RuntimeError"
@@ -29,42 +41,97 @@ def showNotif : Notif → String
 def showAct (a : Act) : String :=
   s!"{a.fn}({",".intercalate (a.args.map toString)};{",".intercalate (a.kw.map fun p => s!"{p.1}={p.2}")})@{if a.paused then 1 else 0}"
 
+def showOutcome (c : Cfg) : String :=
+  match c.st with
+  | .finished v ok => s!"finished:{match v with | some x => toString x | none => "-"}:{if ok then 1 else 0}"
+  | .excepted e => s!"excepted:{showExc e}"
+  | .killed => "killed"
+  | _ => "live"
+
 def obs (c : Cfg) (r : RetV) : String :=
   let b (x : Bool) := if x then "1" else "0"
   s!"ret={showRet r} st={showLabel c.st.label} paused={b c.paused.isSome} stepping={b c.stepping} closed={b c.closed} " ++
   s!"fut={showFut c.fut} task={showTask c.pc} acts={"".intercalate (c.handed.reverse.map fun i => showStatus (actionStatus c i))} " ++
   s!"trace={" ".intercalate (c.trace.reverse.map showAct)} notif={",".intercalate (c.notif.reverse.map showNotif)} " ++
-  s!"cleanups={c.cleanups} ctx={",".intercalate (c.ctx.map fun p => s!"{p.1}:{p.2}")} entered={",".intercalate (c.entered.reverse.map showLabel)}"
+  s!"cleanups={c.cleanups} ctx={",".intercalate ((c.ctx.toArray.qsort (fun a b => a.1 < b.1)).toList.map fun p => s!"{p.1}:{p.2}")} " ++
+  s!"entered={",".intercalate (c.entered.reverse.map showLabel)} out={showOutcome c}"
+
+def pOptInt (s : String) : Option (Option Int) := if s = "-" then some none else s.toInt?.map some
+
+def pKw (s : String) : Option (Nat × Int) :=
+  match s.splitOn "=" with
+  | [k, v] => do some (← k.toNat?, ← v.toInt?)
+  | _ => none
+
+def pAw (s : String) : Option (Nat × Nat) :=
+  match s.splitOn ":" with
+  | [f, k] => do some (← f.toNat?, ← k.toNat?)
+  | _ => none
+
+def pOutcome : List String → Option Outcome
+  | "cont" :: fn :: n :: rest => do
+      let k ← n.toNat?
+      let args ← (rest.take k).mapM (·.toInt?)
+      match rest.drop k with
+      | m :: rest' => do
+          let j ← m.toNat?
+          let kws ← (rest'.take j).mapM pKw
+          some (.ret (.cont (← fn.toNat?) args kws))
+      | [] => none
+  | ["wait", fn] => do some (.ret (.wait (← fn.toNat?)))
+  | "waiton" :: fn :: n :: rest => do
+      let k ← n.toNat?
+      let aw ← (rest.take k).mapM pAw
+      some (.ret (.waitOn (← fn.toNat?) aw))
+  | ["stop", v, ok] => do some (.ret (.stop (← pOptInt v) (ok = "1")))
+  | ["kill"] => some (.ret .kill)
+  | ["raise", n] => do some (.raise (.user (← n.toNat?)))
+  | _ => none
+
+abbrev Table := List (Nat × Body)
+
+def progOfTable (t : Table) : Prog := fun fn _ _ _ =>
+  match t.find? (·.1 = fn) with
+  | some (_, b) => b
+  | none => ⟨0, .ret (.stop none true)⟩
 
 def parseEv (toks : List String) : Option Ev :=
   match toks with
   | ["tick", "stepper"] => some .tick
   | ["tick", "adone", f] => f.toNat?.map fun n => .tickCb (.adone n)
   | ["tick", "trykill"] => some (.tickCb .trykill)
+  | ["tick", "usercb", r] => some (.tickCb (.usercb (r = "raise")))
+  | ["callsoon", r] => some (.callSoon (r = "raise"))
   | ["pause"] => some .pause
   | ["play"] => some .play
   | ["kill"] => some .kill
-  | ["resume"] => some (.resume (some 5))
+  | ["resume", v] => (pOptInt v).map .resume
   | ["fail"] => some (.fail (.user 9))
   | ["cancelfut"] => some .cancelFut
-  | ["complete"] => some (.complete 0 (.result 11))
+  | ["complete", f, "ok", v] => do some (.complete (← f.toNat?) (.result (← v.toInt?)))
+  | ["complete", f, "killed"] => do some (.complete (← f.toNat?) (.exc .killedErr))
+  | ["complete", f, "exc", n] => do some (.complete (← f.toNat?) (.exc (.user (← n.toNat?))))
   | _ => none
 
-partial def loop (h : IO.FS.Stream) (P : Prog) (c : Cfg) : IO Unit := do
+partial def loop (h : IO.FS.Stream) (t : Table) (c : Cfg) : IO Unit := do
   let line ← h.getLine
   if line.isEmpty then return ()
   let toks := (line.trimAscii.toString.splitOn " ").filter (· ≠ "")
   match toks with
-  | ["case", name] =>
-      IO.println s!"case {name}"
-      loop h (progOf name) (init name)
+  | ["case", nf] =>
+      IO.println s!"case {nf}"
+      loop h [] (init (nf.toNat?.getD 0))
+  | "fn" :: id :: aw :: rest =>
+      match id.toNat?, aw.toNat?, pOutcome rest with
+      | some i, some a, some o => IO.println s!"fn {i}"; loop h (t ++ [(i, ⟨a, o⟩)]) c
+      | _, _, _ => IO.println "bad-fn"; loop h t c
   | _ =>
     match parseEv toks with
-    | none => IO.println "bad-op"; loop h P c
+    | none => IO.println "bad-op"; loop h t c
     | some ev =>
-      let (c', r) := step P c ev
+      let (c', r) := step (progOfTable t) c ev
       IO.println (obs c' r)
-      loop h P c'
+      loop h t c'
 
-def main : IO Unit := do loop (← IO.getStdin) (progOf "") {}
+def main : IO Unit := do loop (← IO.getStdin) [] (init 0)
 end DrvPM
